@@ -368,6 +368,12 @@ class World:
             o.norad_id = (int(o.norad_id) + 1) % 100000
             o.revolutions = (int(o.revolutions) + 1) % 100000
             o.element_nb = (int(o.element_nb) + 1) % 1000
+        elif meta == "reform":
+            # the user changes the REPRESENTATION of the orbit in place (same physical state): to cartesian, or back to the form it was created in
+            if self.kind not in ("num", "kepler", "j2", "none"):
+                raise ValueError("the form is changed in place for EME2000 element orbits only in this harness")
+            home = "keplerian" if self.kind in ("num", "none") else "keplerian_mean"
+            o.form = home if o.form.name == "cartesian" else "cartesian"
         elif meta:
             if self.kind != "sgp4":
                 raise ValueError("drag terms are modified for Sgp4 orbits only in this harness")
@@ -1334,12 +1340,14 @@ def check_history(out, kind, h, npts, calls):
         mods = [c for c in calls[first_yield.get(last["orb"], len(calls)) + 1:-1] if c["op"] == "modify" and c["orb"] == last["orb"]]
         changed = bool(mods) and not mods[-1].get("meta")
         label = bool(mods) and mods[-1].get("meta") == "ids"
-        drag = bool(mods) and bool(mods[-1].get("meta")) and not label
+        reformed = bool(mods) and mods[-1].get("meta") == "reform"
+        drag = bool(mods) and bool(mods[-1].get("meta")) and not label and not reformed
         if (changed or drag or label) and what == "events":
             what = "state"          # another trajectory has other events: one family with the states themselves
         fam = (f"{kind}-history-dependent-{what}-after-inplace-change" if changed else
                f"{kind}-history-dependent-{what}-after-inplace-drag-term-change" if drag else
                f"{kind}-history-dependent-{what}-after-inplace-label-change" if label else
+               f"{kind}-history-dependent-{what}-after-inplace-form-change" if reformed else
                f"{kind}-history-dependent-{last['op']}-{what}")
         out.fail(fam,
                  "the result of a call depends on earlier calls on the same objects",
@@ -1379,7 +1387,7 @@ def check_dates_list(out, w, dates, npts, order, form="list", via="iter"):
                  inp, observed={"dates": got[:40], "end": fin}, expected={"dates": exp[:40], "end": "done"})
 
 
-def directed_histories(kind, h, npts, ids=False):
+def directed_histories(kind, h, npts, ids=False, reform=False):
     """the histories of the findings this property has had (known_findings.d/C08.json), on every kind, run first on every seed"""
     P = lambda o, d: {"op": "propagate", "orb": o, "date": d}                                    # noqa: E731
     inside = (npts - 1) * h
@@ -1392,6 +1400,13 @@ def directed_histories(kind, h, npts, ids=False):
         out.append([{"op": "iter", "orb": 0, "args": dict(rng_args), "consume": 2}, {"op": "modify", "orb": 0}, P(0, d2)])
         out.append([P(0, d1), P(1, d2), P(0, d2)])
         out.append([P(0, d1), {"op": "iter", "orb": 1, "args": dict(rng_args), "consume": 1}, P(0, d1)])
+    if reform and kind in ("num", "kepler", "j2", "none"):
+        # the representation changed in place between two calls (oracle only): created in elements, turned cartesian, used, turned back, used
+        R = {"op": "modify", "orb": 0, "meta": "reform"}
+        out.append([dict(R), P(0, d1), dict(R), P(0, d2)])
+        out.append([dict(R), P(0, d1), dict(R), {"op": "iter", "orb": 0, "args": dict(rng_args), "consume": CAP}])
+        out.append([dict(R), {"op": "iter", "orb": 0, "args": dict(rng_args), "consume": 2}, dict(R), P(0, d1)])
+        out.append([P(0, d1), dict(R), P(0, d2), dict(R), P(0, d1)])
     if kind == "sgp4":
         out.append([P(0, d1), {"op": "modify", "orb": 0, "meta": True}, P(0, 30 * d1)])
         out.append([P(0, d1), {"op": "modify", "orb": 0, "meta": True}, {"op": "iter", "orb": 0, "args": dict(rng_args, stop=40 * h), "consume": CAP}])
@@ -1647,7 +1662,7 @@ def _oracle(ctx, widened):
     order = order_of_source()
     n_iter = 1200 if big else 120
     for kind in KINDS:
-        for calls in directed_histories(kind, 60 * 8 * U, 12, ids=True):
+        for calls in directed_histories(kind, 60 * 8 * U, 12, ids=True, reform=True):
             check_history(out, kind, 60 * 8 * U, 12, calls)
         for branch, call in alias_calls(kind, 60 * 8 * U, 12):
             check_alias(out, kind, 60 * 8 * U, 12, branch, call)
